@@ -567,6 +567,28 @@ theorem integrate_evals_perm (f g : Rat → Rat) (a b eps : Rat) (depth : Int) (
     integrate f a b eps depth = integrate g a b eps depth :=
   integrate_congr_on_evals f g a b eps depth (fun x hx => hfg x (hp.mem_iff.mpr hx))
 
+/-! ## Independence of `Integrate` from earlier `Find_Epsilon` calls -/
+
+/-- **integrate_after_findEpsilon** (the obligation the `c03.hist` correspondence checks on the code): whatever
+    integrand, limits and precision an earlier `Find_Epsilon` call had — in particular the SAME limits and a
+    DIFFERENT integrand — the `Integrate` call that follows is the plain run: no value of the earlier call is
+    carried over (the entry points share no state). -/
+theorem integrate_after_findEpsilon (g f : Rat → Rat) (a' b' precision a b eps : Rat) (depth : Int) :
+    (findEpsilonThenIntegrate g f a' b' precision a b eps depth).2 = integrate f a b eps depth := rfl
+
+/-- … and `Find_Epsilon` itself is `precision` times Simpson's rule, from exactly the three nodes `a, b, (a+b)/2` -/
+theorem findEpsilon_spec (f : Rat → Rat) (a b precision : Rat) :
+    (findEpsilon f a b precision).1 = precision * ((b - a) / 6 * (f a + 4 * f ((a + b) / 2) + f b)) ∧
+    (findEpsilon f a b precision).2 = [a, b, (a + b) / 2] := by
+  unfold findEpsilon
+  exact ⟨rfl, rfl⟩
+
+/-- the stale-record scenario of the correspondence: same limits, different integrand; the first three values the
+    `Integrate` run uses are `f`'s, not `g`'s (`simpson_reuse` on the root panel) -/
+example (g f : Rat → Rat) (a b p eps : Rat) (depth : Int) (hab : a < b) :
+    ∀ q ∈ (findEpsilonThenIntegrate g f a b p a b eps depth).2.panels, q.reuseOK f :=
+  fun q hq => simpson_reuse f a b eps depth q hq
+
 /-! ## Non-vacuity: concrete instances meeting the hypotheses -/
 
 /-- the hypotheses of `simpson_regular_4eps` are met by `x⁴` (constant fourth derivative 24:
